@@ -603,12 +603,34 @@ fn shapes<B: Backend>(seed: u64, tier: Tier) -> Vec<BytesCase> {
             // structurally odd private keys (well-formed DER, dishonest numbers): acceptance is not
             // constrained here, panics - at decode time or when an accepted key is used - are
             for i in 0..2usize {
+                // every envelope a private key travels in: PKCS#1 DER, PKCS#1 PEM, PKCS#8 DER, PKCS#8 PEM,
+                // and PEM under labels of neighbouring formats
                 for (shape, der) in crate::keypool::odd_private_keys(2048, i) {
                     push("Secret", shape.clone(), der.clone());
                     push("Secret", format!("{shape}-pem"), crate::props::c13::pem_encode("RSA PRIVATE KEY", &der));
+                    let p8 = crate::keypool::pkcs8_wrap(&der);
+                    push("Secret", format!("{shape}-pkcs8-der"), p8.clone());
+                    push("Secret", format!("{shape}-pkcs8-pem"), crate::props::c13::pem_encode("PRIVATE KEY", &p8));
+                    push("Secret", format!("{shape}-pkcs1-under-pkcs8-label"), crate::props::c13::pem_encode("PRIVATE KEY", &der));
+                    push("Secret", format!("{shape}-pkcs8-under-pkcs1-label"), crate::props::c13::pem_encode("RSA PRIVATE KEY", &p8));
+                    push("Secret", format!("{shape}-encrypted-label"), crate::props::c13::pem_encode("ENCRYPTED PRIVATE KEY", &p8));
                 }
                 for (shape, der) in crate::keypool::odd_private_keys(4096, i) {
                     push("PkeSecret", shape.clone(), der.clone());
+                    if i == 0 {
+                        let p8 = crate::keypool::pkcs8_wrap(&der);
+                        push("PkeSecret", format!("{shape}-pem"), crate::props::c13::pem_encode("RSA PRIVATE KEY", &der));
+                        push("PkeSecret", format!("{shape}-pkcs8-der"), p8.clone());
+                        push("PkeSecret", format!("{shape}-pkcs8-pem"), crate::props::c13::pem_encode("PRIVATE KEY", &p8));
+                    }
+                }
+                // honest keys in the PKCS#8 envelopes (whether they are accepted is the decoder's affair;
+                // what is accepted must serialise, derive its public key and be usable)
+                {
+                    let der = crate::keypool::rsa2048(i);
+                    let p8 = crate::keypool::pkcs8_wrap(&der);
+                    push("Secret", "rsa-honest-in-pkcs8-der".into(), p8.clone());
+                    push("Secret", "rsa-honest-in-pkcs8-pem".into(), crate::props::c13::pem_encode("PRIVATE KEY", &p8));
                 }
                 for (shape, der) in crate::keypool::odd_public_keys(2048, i) {
                     push("Public", shape.clone(), der.clone());
